@@ -63,6 +63,52 @@ def text_statement_violations(x, normalize):
     return bad
 
 
+def fresh(x):
+    """a NEW str object with the same characters"""
+    return "".join(list(x))
+
+
+def ref_norm(x):
+    """normalize(x) for plain text, written out with loops (no str.split / str.strip)"""
+    pieces, cur = [], ""
+    for ch in x:
+        ch = " " if ch == NBSP else ch
+        if ch == " ":
+            pieces.append(cur)
+            cur = ""
+        else:
+            cur += ch
+    pieces.append(cur)
+    out = []
+    for w in pieces:
+        i, j = 0, len(w)
+        while i < j and w[i].isspace():
+            i += 1
+        while j > i and w[j - 1].isspace():
+            j -= 1
+        if j > i:
+            out.append(w[i:j])
+    return " ".join(out)
+
+
+def text_result_violations(x, y):
+    """the text clauses of the property on a GIVEN result y for input x (no further call of normalize)"""
+    bad = []
+    if not isinstance(y, str):
+        return [("C20:text:type", "normalize did not return a str")]
+    if NBSP in y:
+        bad.append(("C20:text:nbsp", "result contains a non-breaking space"))
+    if y[:1].isspace() or y[-1:].isspace():
+        bad.append(("C20:text:edge-space", "result starts or ends with whitespace"))
+    if "  " in y:
+        bad.append(("C20:text:run-of-spaces", "result contains two adjacent spaces"))
+    if ws_words(y) != ws_words(x.replace(NBSP, " ")):
+        bad.append(("C20:text:words", "the words or their order changed"))
+    if y != ref_norm(x):
+        bad.append(("C20:text:reference", f"result differs from the written-out normaliser: {ref_norm(x)!r}"))
+    return bad
+
+
 # ---------------------------------------------------------------- text pool
 def text_pool(ctx):
     pool = []
@@ -136,9 +182,9 @@ def run_text(ctx):
     ctx.rng.shuffle(again)
     for k, x in enumerate(again[:3000]):
         ctx.count("text:second_pass")
-        for how, f in (("normalize(x)", lambda: normalize(x)), ("normalize(x, False)", lambda: normalize(x, False)),
-                       ("normalize(x, is_xml=False)", lambda: normalize(x, is_xml=False)),
-                       ("normalize(content=x)", lambda: normalize(content=x))):
+        for how, f in (("normalize(x)", lambda: normalize(fresh(x))), ("normalize(x, False)", lambda: normalize(fresh(x), False)),
+                       ("normalize(x, is_xml=False)", lambda: normalize(fresh(x), is_xml=False)),
+                       ("normalize(content=x)", lambda: normalize(content=fresh(x)))):
             try:
                 y = f()
             except Exception as e:
@@ -412,6 +458,7 @@ FIXED_DOCS = [
     '<a v="x&#10;y&#9;z"><![CDATA[  <raw>  ]]></a>',
     '<a>x<b/>  <b/>y</a>',
     '<a><para/><para>   </para><b>   </b></a>',
+    '<a/>', '<a></a>', '<a> </a>', '<a x=""/>', '<a x=" "> \n </a>', '<para/>', '<para> </para>', '<a x="" xmlns:xsi="' + XSI + '" xsi:nil=""><b/></a>',
     '<a>&#160;z&#160;</a>',                                   # regression: NBSP as character reference (fixed in 595f276)
     '<a x="&#160;p&#xA0;&#160;q "><para>&#160;y&#xA0;</para> t&#160; </a>',
 ]
@@ -497,7 +544,7 @@ def run_xml(ctx):
         d, out = metas[k]
         ctx.count("xml:second_pass")
         normalize(" interleaved \t text " + str(k))
-        for how, f in (("normalize(d, is_xml=True)", lambda: normalize(d, is_xml=True)), ("normalize(d, True)", lambda: normalize(d, True))):
+        for how, f in (("normalize(d, is_xml=True)", lambda: normalize(fresh(d), is_xml=True)), ("normalize(d, True)", lambda: normalize(fresh(d), True))):
             try:
                 y = f()
             except Exception as e:
@@ -506,6 +553,58 @@ def run_xml(ctx):
                 ctx.fail("C20:xml:stateful", f"{how} returned a different result when called again later in the same process",
                          {"kind": "impl-vs-statement", "branch": "xml", "document": d, "first": out, "later": y, "call": how})
                 break
+    # the SAME string in BOTH modes in one process, in both orders, always as fresh str objects:
+    #  (i) documents already normalised as XML above are now normalised as plain text;
+    #  (ii) new documents are normalised as plain text FIRST and as XML afterwards;
+    #  (iii) then each once more in the first mode. Every result must satisfy the clauses of ITS mode.
+    def xml_problems(d, out):
+        try:
+            inp_ = x_of_lxml(etree.XML(d.encode("utf-8")))
+            o_ = x_of_lxml(etree.XML(out.encode("utf-8")))
+        except Exception as e:
+            return [("C20:xml:well-formed", f"the result is not well-formed: {type(e).__name__}: {e}")]
+        if x_skeleton(o_) != x_skeleton(inp_):
+            return [("C20:xml:structure", "elements / attribute names / order changed")]
+        return xml_statement(inp_, o_, EXPECTED_PROTECTED)
+
+    def call(fn):
+        try:
+            return fn()
+        except Exception as e:
+            return None if False else ("RAISED " + type(e).__name__ + ": " + str(e)[:80])
+    new_docs = [gen_elem(rng, rng.choice([1, 2, 3]), rng.random() < 0.2, root=True) for _ in range(150 if ctx.tier != "thorough" else 800)]
+    new_docs += ['<a/>', '<a> </a>', '<t>  two  words </t>', '<para>  p </para>', '<a x=" 1 "/>']
+    cross = [(d, "xml-then-text", out) for d, out in metas] + [(d, "text-then-xml", None) for d in new_docs]
+    rng.shuffle(cross)
+    for d, order, xml_first in cross:
+        ctx.count("cross-mode:" + order)
+        ctx.case(("cross", order, d), True)
+        rep = {"kind": "impl-vs-statement", "branch": "both", "order": order, "document": d}
+        if order == "text-then-xml":
+            y_text = call(lambda: normalize(fresh(d)))
+            y_xml = call(lambda: normalize(fresh(d), is_xml=True))
+            y_text2 = call(lambda: normalize(fresh(d), False))
+        else:
+            y_xml = xml_first
+            y_text = call(lambda: normalize(fresh(d)))
+            y_xml2 = call(lambda: normalize(fresh(d), True))
+            if y_xml2 != xml_first:
+                ctx.fail("C20:xml:stateful", "XML normalisation of a document changed after the same string was normalised as plain text",
+                         dict(rep, first=xml_first, later=y_xml2))
+            y_text2 = y_text
+        probs = []
+        if isinstance(y_text, str) and y_text.startswith("RAISED "):
+            probs.append(("C20:text:raises", y_text))
+        else:
+            probs += [(k, "as plain text (" + order + "): " + w) for k, w in text_result_violations(d, y_text)]
+        if y_text2 != y_text:
+            probs.append(("C20:text:stateful", "plain-text normalisation of a string changed after the same string was normalised as XML"))
+        if isinstance(y_xml, str) and y_xml.startswith("RAISED "):
+            probs.append(("C20:xml:raises", y_xml))
+        else:
+            probs += [(k, "as XML (" + order + "): " + w) for k, w in xml_problems(d, y_xml)]
+        for key, what in probs[:2]:
+            ctx.fail(key, what, dict(rep, as_text=y_text, as_xml=y_xml))
     # (B) the model in Coq
     shard = 120
     jobs = []
@@ -565,6 +664,26 @@ def replay(ctx, data):
             ctx.fail(key, what, {"kind": "impl-vs-statement", "branch": "text", "input": x,
                                  "input_codepoints": [ord(c) for c in x], "observed": obs})
             print("still fails:", key, what, repr(obs))
+    elif r.get("branch") == "both" and "document" in r:
+        d = r["document"]
+        rep = {"kind": "impl-vs-statement", "branch": "both", "order": r.get("order"), "document": d}
+        seq = [False, True, False] if r.get("order") == "text-then-xml" else [True, False, True]
+        outs = []
+        for mode in seq:
+            try:
+                outs.append(normalize(fresh(d), mode))
+            except Exception as e:
+                outs.append("RAISED " + type(e).__name__)
+            print(f"normalize(doc, is_xml={mode}):", repr(outs[-1])[:300])
+        y_text = outs[seq.index(False)]
+        probs = text_result_violations(d, y_text)
+        if outs[0] != outs[2]:
+            probs.append(("C20:xml:stateful" if seq[0] else "C20:text:stateful", "the same call gives another result after the other mode was used on the same string"))
+        for key, what in probs:
+            ctx.fail(key, what, dict(rep, results=outs))
+            print("still fails:", key, what)
+        if not probs:
+            print("both modes behave independently on this string now")
     elif r.get("branch") == "xml" and "document" in r:
         from lxml import etree
         d = r["document"]
